@@ -14,6 +14,7 @@ import (
 
 type IncOpts struct {
 	KillAt     int // <0: never
+	NoFDFrom, NoFDLen int // simrt.Config: descriptor exhaustion window
 	DiskFullAt int // >0: the n-th Go-level write below a task temp dir is short and fails with ENOSPC
 	ClockGran  int64
 	Race       bool
@@ -92,7 +93,7 @@ func InitFS(s *simrt.Sim, w *WF) {
 }
 
 func RunInc(w *WF, t *simrt.Tape, root *simrt.Inode, nextIno int, o IncOpts) *Inc {
-	cfg := simrt.Config{Strategy: o.Strategy, KillAt: o.KillAt, DiskFullAt: o.DiskFullAt, ClockGran: o.ClockGran, TraceOn: o.Trace, Race: o.Race,
+	cfg := simrt.Config{Strategy: o.Strategy, KillAt: o.KillAt, DiskFullAt: o.DiskFullAt, NoFDFrom: o.NoFDFrom, NoFDLen: o.NoFDLen, ClockGran: o.ClockGran, TraceOn: o.Trace, Race: o.Race,
 		PipeCap: o.PipeCap, NoEarlyTimers: o.NoEarlyTimers, TimerPick: 0.03, StepCap: o.StepCap, Env: map[string]string{}}
 	if w.Bufsize > 0 {
 		cfg.Env["SCIPIPE_BUFSIZE"] = fmt.Sprint(w.Bufsize)
